@@ -9,6 +9,7 @@ import (
 	"github.com/anishathalye/porcupine"
 	"github.com/enfein/mieru/v3/pkg/appctl/appctlpb"
 	"github.com/enfein/mieru/v3/pkg/metrics"
+	"github.com/enfein/mieru/v3/pkg/metrics/metricspb"
 	"github.com/enfein/mieru/v3/pkg/protocol"
 	"google.golang.org/protobuf/proto"
 )
@@ -106,6 +107,9 @@ func c19CounterCase(c *Ctx) *Result {
 		}
 	}
 	nops := 2600
+	var snap *metricspb.Metric
+	var snapTotal int64
+	snapAt := 0
 	for i := 0; i < nops && sig == ""; i++ {
 		switch r.Intn(30) {
 		case 0:
@@ -127,8 +131,22 @@ func c19CounterCase(c *Ctx) *Result {
 		}
 		total += d
 		res.Obs["counter_ops"]++
+		// an export taken earlier (the periodic dump, the users RPC) describes the
+		// counter as it was then, whatever is counted afterwards - also within
+		// the same millisecond
+		if snap != nil && i-snapAt <= 3 {
+			var hs int64
+			for _, h := range snap.GetHistory() {
+				hs += h.GetDelta()
+			}
+			res.Obs["snapshots_rechecked"]++
+			if hs != snapTotal {
+				fail("export-changed-after-it-was-taken", fmt.Sprintf("an export taken at total %d (step %d) sums to %d after %d further increments", snapTotal, snapAt, hs, i-snapAt))
+			}
+		}
 		if i%97 == 0 {
 			check(i)
+			snap, snapTotal, snapAt = metrics.ToMetricPB(ctr), total, i
 		}
 	}
 	check(nops)
